@@ -25,6 +25,8 @@ pub enum Why {
     Park,
     Exit,
     User(&'static str),
+    /// A plain scheduling point (e.g. between two steps of a worker loop): the running thread stays the default.
+    Step(&'static str),
 }
 
 #[derive(Debug, Clone, PartialEq, Eq)]
@@ -277,6 +279,11 @@ pub fn point(why: Why) {
 
 pub fn yield_point(name: &'static str) {
     point(Why::User(name));
+}
+
+/// A scheduling point at which carrying on with the running thread is the default (a switch is a preemption).
+pub fn step_point(name: &'static str) {
+    point(Why::Step(name));
 }
 
 /// The running thread failed to acquire `addr`: block until somebody releases it.
